@@ -96,6 +96,10 @@ func (k Keeper) AdjustPool(
 		)
 	}
 
+	// a message may list its coins in any order (its stateless validation sorts a
+	// copy); every lookup by denomination below relies on sorted coins
+	reward, rewardPerBlock = reward.Sort(), rewardPerBlock.Sort()
+
 	pool.Rules = k.GetRewardRules(ctx, pool.Id)
 	rules := types.RewardRules(pool.Rules)
 	if rewardPerBlock != nil && !rewardPerBlock.DenomsSubsetOf(rules.RewardsPerBlock()) {
